@@ -9,6 +9,9 @@ LLSE_NOTE = ('Trusted base: rustc/LLVM up to the emitted IR (the IR is what is c
              'Verdicts hold within the stated structural bounds only; see evidence coverage.bounds / outside_claim.')
 
 CLAIMED = {
+ 'C10': dict(
+    text='Bounded symbolic model checking of the compiled parser: Parser::parse runs on token streams whose token kinds are symbolic (37-kind expression alphabet), next to an independent table-driven reference parser transcribed from the documented precedence table; on every feasible path either both reject the sequence or the two syntax trees are structurally identical. Exhaustive over all sequences up to the stated length, plus longer templates (three- and four-operand expressions, conditionals, unary/postfix combinations, parentheses, calls) whose operator positions are symbolic over all 23 operators. All-sequences-within-a-bound is the right level because a precedence or associativity slip shows only for a particular pair of operators in a particular arrangement.',
+    design_ref='DESIGN.md §4 C10', technique='symbolic execution of LLVM IR + SMT (z3 QF_BV), replay-mode path exploration, reference-parser differential'),
  'C18': dict(
     text='Bounded symbolic model checking of the compiled list.rs: (a) one inductive step — from every representation state satisfying the invariant (view absent or (s,e) with s<=e==alloc.len(); allocation length up to the bound, ring buffer rotated or not, sole owner or sharing with a second handle with/without a view) each of the 9 public operations, chosen symbolically with symbolic element values, must leave the operated handle with exactly the elements of a plain sequence model, leave the other handle unchanged and re-establish the invariant; because the post-state satisfies the invariant the step composes to histories of any length; (b) every history of k operations over three handles from new() through the public API only, which also shows the reachable states satisfy the assumed invariant.',
     design_ref='DESIGN.md §4 C18', technique='symbolic execution of LLVM IR + SMT (z3 QF_BV): inductive step over symbolic representation states + bounded histories'),
